@@ -1110,5 +1110,4 @@ def s_cols_below(ev, state, node):
 def s_whole(ev, state, node):
     """x is a whole number"""
     x = to_real(ev.eval(state, node.args[0]))
-    k = z3.Int(fresh_name('whole'))
-    return SymVal(T.BOOL, z3.Exists([k], x == z3.ToReal(k)))
+    return SymVal(T.BOOL, z3.IsInt(x))
